@@ -46,13 +46,13 @@ def run_history(ctx, seed):
         maxr = rng.choice([2, 3])
         v2cfg = (core, max(mx, core), minr, maxr)
     pw = PoolWorld(seed, proto, K=K, thr=3 * K // 4, nodes=nodes, p_preempt=rng.choice([0.0, 0.1, 0.3, 0.5]), never_convict=never, v2cfg=v2cfg,
-                   chunking=rng.random() < 0.3)
+                   chunking=rng.random() < 0.3, keyspace='ks' if rng.random() < 0.35 else None)
     env, world, net, plan = pw.env, pw.world, pw.net, pw.plan
     nsteps = rng.randint(4, 30)
     shutdown_at = rng.randrange(nsteps) if rng.random() < 0.6 else None
     shutdown_how = rng.choices(['pool', 'session', 'cluster'], [5, 3, 2])[0]
     viol = pw.viol
-    info = {'seed': seed, 'proto': proto, 'id_space': K, 'nodes': nodes, 'never_convict': never, 'v2cfg': v2cfg, 'steps': nsteps,
+    info = {'seed': seed, 'proto': proto, 'id_space': K, 'nodes': nodes, 'keyspace': pw.keyspace, 'never_convict': never, 'v2cfg': v2cfg, 'steps': nsteps,
             'shutdown_at': shutdown_at, 'shutdown_how': shutdown_how if shutdown_at is not None else None}
     steps_log = []
     with env:
@@ -90,6 +90,9 @@ def run_history(ctx, seed):
                 elif shutdown_how == 'session':
                     session.shutdown()
                 else:
+                    # Cluster.shutdown() joins the executor: a task blocked for ever in a kept-back USE round trip (no timeout in the driver) would hang it
+                    pw.hold_handshake[0] = False
+                    pw.release_handshakes()
                     cluster.shutdown()
                 return
             if r < 0.34:
@@ -152,6 +155,10 @@ def run_history(ctx, seed):
                 if pw.held_handshakes or pw.hold_handshake[0]:
                     pw.hold_handshake[0] = False
                     steps_log.append(('release-handshakes', pw.release_handshakes()))
+                elif rng.random() < 0.5:
+                    # from now on connections a pool opens on its own (growth, refill, replacement) are stuck in their set-up (handshake / USE)
+                    pw.hold_handshake[0] = True
+                    steps_log.append(('hold-handshakes',))
             elif r < 0.93:
                 steps_log.append(('settle',))
                 world.settle(advance=False)
@@ -168,6 +175,13 @@ def run_history(ctx, seed):
             if ps:
                 p = ps[0]
                 filled, misses = 0, 0
+                if rng.random() < 0.4:
+                    # connections the pool opens while it fills up (growth) get stuck in their set-up; the pool may be shut down meanwhile
+                    pw.hold_handshake[0] = True
+                    steps_log.append(('hold-handshakes',))
+                    if rng.random() < 0.6:
+                        forced_shutdown[0] = rng.randrange(0, 3)
+                        info['forced_shutdown_step'] = forced_shutdown[0]
                 while misses < 3 and filled < 80:
                     u = new_uid()
                     kinds[u] = 'direct-hold'
